@@ -399,7 +399,7 @@ Inductive fclass :=
 | ConfigUnreadable | UnknownKey | BadRegexSubpkg | BadRegexInterface | CyclicTemplate
 | BadTemplatedValue | SchemaMissing | SchemaReject | TemplateSyntax | TemplateExecution
 | InvalidGoOutput | PrepareFailure | ConflictPackage | ConflictPkgName | ConflictTemplate
-| NoPackages.
+| NoPackages | OutputIsDirectory | OutputParentIsFile.
 
 (* an invalid include- / exclude-interface-regex that the selection of [name] reaches *)
 Definition bad_regex_reached (p : package) (name : str) : Prop :=
@@ -447,6 +447,11 @@ Definition has_class (w : world) (c : fclass) : Prop :=
   | ConflictTemplate => exists p1 q1 p2 q2, In (p1, q1) (selected_reqs w) /\ In (p2, q2) (selected_reqs w) /\
                                             q_key q1 = q_key q2 /\ q_template q1 <> q_template q2
   | NoPackages => w_pkgs w = []
+  (* the file cannot be written: a directory occupies the output path (whatever force-file-write
+     says), or a regular file stands where one of its parent directories should be *)
+  | OutputIsDirectory => exists x g, file_gov w x = Some g /\ w_fs w (q_path g) = Some Dir
+  | OutputParentIsFile => exists x g a c, file_gov w x = Some g /\ strict_prefix a (q_path g) = true /\
+                                          a <> [] /\ w_fs w a = Some (File c)
   end.
 
 (* the classes that are decided while the files are produced need the file to be visited
@@ -455,6 +460,6 @@ Definition needs_visit (c : fclass) : bool :=
   match c with
   | UnknownTemplate | MissingRemoteTemplate | SchemaMissing | SchemaReject
   | TemplateSyntax | TemplateExecution | InvalidGoOutput | PrepareFailure
-  | CyclicTemplate | BadTemplatedValue => true
+  | CyclicTemplate | BadTemplatedValue | OutputIsDirectory | OutputParentIsFile => true
   | _ => false
   end.
